@@ -291,6 +291,6 @@ func init() {
 		Rule: "literals: every text of <= 4 (thorough 5) symbols over {a ' \" ` \\ { } % LF CR TAB CJK 0x1E space} x 4 delimiter styles, spelled with the documented escapes (raw and escaped control characters), plus size ladders; must evaluate to exactly the text with empty rest. templates: every template of <= 2 (thorough 3) segments (6 literal texts, 44 hole programs x 2 hole styles incl. assignments, blocks, loops with break / continue in nested templates, value-less index / attribute / slice assignments, nested template, function definition, the same container object shown by several parts) x both template delimiters, 3-segment shapes, nesting ladders 1..24; result must equal the concatenation of literal texts and the string form of each hole's value obtained by evaluating the hole program alone, in order, on a second VM in the same state; variables must match too. Distinct by source text; out-of-domain (text, delimiter) pairs are counted separately and are not cases.",
 		Enumerate: c13Enumerate,
 		Run:       c13Run,
-		Budget:    map[string]time.Duration{"quick": 150 * time.Second, "thorough": 40 * time.Minute},
+		Budget:    map[string]time.Duration{"quick": 400 * time.Second, "thorough": 40 * time.Minute},
 	})
 }
